@@ -10,7 +10,6 @@ import (
 	"path/filepath"
 	"regexp"
 	"runtime"
-	"slices"
 	"sort"
 	"strings"
 	"sync"
@@ -40,11 +39,6 @@ type finding struct {
 }
 
 // checkManifest evaluates the manifest / debug-info clause for one program.
-func checkManifest(p *program, c compiled) (fs []finding, checked int) {
-	fs, checked, _, _ = checkManifestN(p, c)
-	return
-}
-
 func expNames(p *program) []string {
 	var r []string
 	for _, f := range p.exported {
@@ -53,9 +47,9 @@ func expNames(p *program) []string {
 	return r
 }
 
-// checkManifestN also counts the methods with a receiver and the functions
-// with names outside ASCII that were found in the debug information.
-func checkManifestN(p *program, c compiled) (fs []finding, checked, methods, nonASCII int) {
+// It also counts the methods with a receiver and the functions with names
+// outside ASCII that were found in the debug information.
+func checkManifest(p *program, c compiled) (fs []finding, checked, methods, nonASCII int) {
 	add := func(sig, f string, a ...any) { fs = append(fs, finding{sig: sig, detail: fmt.Sprintf(f, a...)}) }
 	script := c.nef.Script
 	// instruction boundaries
@@ -145,14 +139,6 @@ func checkManifestN(p *program, c compiled) (fs []finding, checked, methods, non
 			add("manifest:unexpected-method", "%q/%d at %d (the exported functions of the source are %q)", md.Name, len(md.Parameters), md.Offset, expNames(p))
 		}
 	}
-	if p.globals != nil {
-		for _, sv := range c.di.StaticVariables {
-			name, _, _ := strings.Cut(sv, ",")
-			if !slices.Contains(p.globals, name) {
-				add("debug:static-variable-is-no-package-variable", "%q", sv)
-			}
-		}
-	}
 	// every function of the source in the debug information
 	type rng struct {
 		s, e int
@@ -193,7 +179,7 @@ func checkManifestN(p *program, c compiled) (fs []finding, checked, methods, non
 		if m.Name.Name != lowerFirst(f.name) {
 			add("debug:method-name", "%s: debug name %q, expected %q", id, m.Name.Name, lowerFirst(f.name))
 		}
-		if m.IsExported != (f.exported || f.recv != nil && token.IsExported(f.name)) {
+		if m.IsExported != token.IsExported(f.name) {
 			add("debug:exported-flag", "%s: debug says %v", id, m.IsExported)
 		}
 		if len(f.rets) == 0 && m.ReturnType != "Void" {
@@ -240,7 +226,12 @@ func classify(nat nativeResult, bare, con vmOutcome, ret ty) (sig, detail string
 	if bare.catches > 0 {
 		after = ":after-recovered-panic"
 	}
-	okBare := bare.fault == "" && bare.n == 1 && bare.valOK && bare.val == nat.val
+	// a procedure leaves nothing; System.Contract.Call hands Null to its caller
+	wantN := 1
+	if ret == tVoid {
+		wantN = 0
+	}
+	okBare := bare.fault == "" && bare.n == wantN && bare.valOK && bare.val == nat.val
 	okCon := con.fault == "" && con.n == 1 && con.valOK && con.val == nat.val
 	if nat.panicked {
 		if bare.fault != "" && con.fault != "" {
@@ -266,7 +257,9 @@ func classify(nat nativeResult, bare, con vmOutcome, ret ty) (sig, detail string
 		return "go-terminates-vm-exceeds-step-bound" + after, fmt.Sprintf("Go returns %s; bare VM: %s; contract: %s", nat.val, bare.fault, outStr(con))
 	case bare.fault != "" && con.fault != "":
 		return "go-returns-vm-fails:" + faultClass(bare.fault) + after, fmt.Sprintf("Go returns %s; bare VM: %s; contract: %s", nat.val, bare.fault, con.fault)
-	case bare.fault == "" && bare.n != 1:
+	case bare.fault == "" && ret == tVoid && bare.n != 0:
+		return "stack:bare-vm-leaves-items-after-procedure" + after, fmt.Sprintf("Go returns; bare VM leaves %d items %v; contract: %s", bare.n, bare.stack, outStr(con))
+	case bare.fault == "" && bare.n != wantN:
 		return "stack:bare-vm-leaves-other-than-one-item" + after, fmt.Sprintf("Go returns %s; bare VM leaves %d items %v; contract: %s", nat.val, bare.n, bare.stack, outStr(con))
 	case (bare.fault != "") != (con.fault != ""):
 		return "bare-vm-and-contract-call-differ:" + faultClass(bare.fault+con.fault) + after, fmt.Sprintf("Go returns %s; bare VM: %s; contract: %s", nat.val, outStr(bare), outStr(con))
@@ -369,6 +362,7 @@ type progResult struct {
 	con     []vmOutcome
 	mf      []finding
 	mfN     int
+	mfMeth, mfNonASCII int
 	depErr  error
 	skipped bool
 }
@@ -399,7 +393,7 @@ func runBatch(t *testing.T, run *ev.Run, st *stats, dir string, progs []*program
 			if r.c.err != nil {
 				return
 			}
-			r.mf, r.mfN = checkManifest(p, r.c)
+			r.mf, r.mfN, r.mfMeth, r.mfNonASCII = checkManifest(p, r.c)
 			r.bare = make([]vmOutcome, len(p.calls))
 			for ci, cs := range p.calls {
 				f := p.fn(cs.Fn)
@@ -408,7 +402,12 @@ func runBatch(t *testing.T, run *ev.Run, st *stats, dir string, progs []*program
 					r.bare[ci] = vmOutcome{fault: "harness: method not in manifest"}
 					continue
 				}
-				r.bare[ci] = runBare(r.c, md, cs.Args, f.rets[0])
+				if (f.ret0() == tVoid) != (md.ReturnType == smartcontract.VoidType) {
+					// reported by the manifest clause; the executors cannot agree on a count
+					r.bare[ci] = vmOutcome{fault: "harness: manifest return type differs in voidness"}
+					continue
+				}
+				r.bare[ci] = runBare(r.c, md, cs.Args, f.ret0())
 			}
 		}()
 	}
@@ -440,7 +439,7 @@ func runBatch(t *testing.T, run *ev.Run, st *stats, dir string, progs []*program
 			}
 			r.con = make([]vmOutcome, len(p.calls))
 			for ci, cs := range p.calls {
-				r.con[ci] = ce.call(r.hash, lowerFirst(cs.Fn), cs.Args, p.fn(cs.Fn).rets[0])
+				r.con[ci] = ce.call(r.hash, lowerFirst(cs.Fn), cs.Args, p.fn(cs.Fn).ret0())
 			}
 		}()
 	}
@@ -501,13 +500,33 @@ func judge(run *ev.Run, st *stats, p *program, r *progResult, nb *nativeBatch) {
 	}
 	run.Obs("programs_compiled", 1)
 	run.Obs("manifest_and_debug_methods_checked", int64(r.mfN))
+	run.Obs("debug_methods_with_receiver_checked", int64(r.mfMeth))
+	run.Obs("debug_methods_with_non_ascii_name_checked", int64(r.mfNonASCII))
+	for _, f := range p.exported {
+		if !isASCII(f.name) {
+			run.Obs("manifest_methods_with_non_ascii_name_checked", 1)
+		}
+		if len(f.rets) == 0 {
+			run.Obs("exported_procedures", 1)
+		}
+	}
+	for k, v := range p.cnt {
+		if o := genObs(k); o != "" {
+			run.Obs(o, int64(v))
+		}
+	}
 	st.mu.Lock()
 	for _, f := range p.feat {
 		st.feat[f]++
 	}
 	st.mu.Unlock()
 	for _, f := range r.mf {
-		run.Violation(f.sig, id, f.detail, wit(nil))
+		sig := f.sig
+		if p.directed != "" {
+			sig = "dialect-gap:" + p.directed
+			f.detail = f.sig + ": " + f.detail
+		}
+		run.Violation(sig, id, f.detail, wit(nil))
 	}
 	if r.depErr != nil {
 		run.Violation("deploy-rejected:"+faultClass(r.depErr.Error()), id, r.depErr.Error(), wit(nil))
@@ -526,7 +545,7 @@ func judge(run *ev.Run, st *stats, p *program, r *progResult, nb *nativeBatch) {
 			run.Inconclusive("%s call %d: %s %s", p.pkg, ci, b.fault, c.fault)
 			continue
 		}
-		ret := p.fn(cs.Fn).rets[0]
+		ret := p.fn(cs.Fn).ret0()
 		sig, detail := classify(n, b, c, ret)
 		cls := "value"
 		if n.panicked {
@@ -563,6 +582,29 @@ func judge(run *ev.Run, st *stats, p *program, r *progResult, nb *nativeBatch) {
 			"contract_call": map[string]any{"fault": c.fault, "stack": c.stack},
 		}))
 	}
+}
+
+// genObs maps a construct of the generator to the counter it is reported under.
+func genObs(k string) string {
+	switch {
+	case k == "procedure":
+		return "procedures_generated"
+	case k == "procedure-call":
+		return "procedure_call_statements"
+	case k == "procedure-call-in-loop":
+		return "procedure_call_statements_inside_loops"
+	case k == "lambda":
+		return "function_literals"
+	case k == "lambda-procedure":
+		return "function_literals_without_result"
+	case k == "tail:procedure-falls-off-the-end" || k == "tail:procedure-bare-return":
+		return ""
+	case strings.HasSuffix(k, "-without-else:returns-in-all") && strings.HasPrefix(k, "tail:else-if-chain"):
+		return "tails_else_if_chain_without_else_every_branch_returning"
+	case strings.HasPrefix(k, "tail:"):
+		return "function_bodies_ending_in_compound_statement"
+	}
+	return ""
 }
 
 func argsStr(a []argSpec) string {
